@@ -76,6 +76,9 @@ func HarnessC13Chain() {
 	}
 	_, err = router.Handle("GET", "/t/", mark(hkRoute))
 	sym.Assert(err == nil, "route registered")
+	// a route reached by ignoring a trailing slash is a route handler like any other
+	_, err = router.Handle("GET", "/i/", mark(hkRoute), append([]fox.RouteOption{fox.WithIgnoreTrailingSlash(true)}, ropts...)...)
+	sym.Assert(err == nil, "route registered")
 	// another route with different route middleware must not disturb the first one
 	_, err = router.Handle("GET", "/other", mark(hkRoute), fox.WithMiddleware(t.mw(200), t.mw(201)))
 	sym.Assert(err == nil, "route registered")
@@ -106,6 +109,13 @@ func HarnessC13Chain() {
 			sym.Assert(reached == kind, "the expected handler kind ran")
 		}
 		sym.Assert(sameInts(t.ids, expect(kind)), "middleware applied exactly per scope, once each, in registration order, global before route-specific")
+	}
+	{
+		t.ids = nil
+		reached = -1
+		_, esc := serveCapture(router, &http.Request{Method: "GET", Host: "example.com", RemoteAddr: "192.0.2.1:1234", URL: &url.URL{Path: "/i"}, Header: http.Header{}})
+		sym.Assert(esc == nil && reached == hkRoute, "the route ignoring the trailing slash ran")
+		sym.Assert(sameInts(t.ids, expect(hkRoute)), "a route served by ignoring a trailing slash runs the full chain (global then route-specific)")
 	}
 	// Route.Handle runs the bare handler, Route.HandleMiddleware only the route-specific chain
 	ctx := fox.NewTestContextOnly(&nullWriter{h: http.Header{}}, &http.Request{Method: "GET", URL: &url.URL{Path: "/r"}})
